@@ -7,6 +7,7 @@ import (
 	"fmt"
 	"io"
 	"math"
+	"math/big"
 	"reflect"
 	"strings"
 	"time"
@@ -74,7 +75,21 @@ const c07TextFam = gen.FAscii | gen.FHTML | gen.FMD | gen.FWide | gen.FNewline |
 const c07ValueFam = c07TextFam | gen.FSGR | gen.FNUL | gen.FInvalid | gen.FZero | gen.FCR
 
 func c07RandomItem(r *gen.R) c07Item {
-	switch r.Intn(25) {
+	switch r.Intn(27) {
+	case 26:
+		// types that implement several encoding interfaces at once: encoding/json has its own order of preference
+		// (MarshalJSON before MarshalText), and what it makes of the item is what the column shows
+		switch r.Intn(4) {
+		case 0:
+			return c07Item{Desc: "item with MarshalJSON and a MarshalText that disagrees", item: gen.BothMarshal{ID: r.Word()}}
+		case 1:
+			return c07Item{Desc: "item with MarshalText only", item: gen.TextOnlyMarshal{ID: r.Str(c07ValueFam, 2)}}
+		case 2:
+			return c07Item{Desc: "*big.Int (MarshalJSON gives a number, MarshalText digits)", item: big.NewInt(int64(r.Range(-5, 100000)))}
+		}
+		return c07Item{Desc: "time.Time (both interfaces, agreeing)", item: time.Unix(int64(r.Intn(1<<31)), 0).UTC()}
+	case 25:
+		return c07Item{Desc: "item whose type also has Fields, AnonFields, SetProperty... methods", item: gen.Pick(r, []interface{}{gen.FielderItem{ID: r.Word()}, gen.OwnerItem{ID: r.Word()}, gen.CellishItem{ID: r.Word()}})}
 	case 24:
 		// comparable types whose value holds something unhashable
 		if r.Bool() {
